@@ -65,7 +65,6 @@ Lemma l_pm_restart now m ha hb inst :
   hrel (m_round m) ha hb -> rrel (m_round m) (pm_restart now m ha inst) (pm_restart now m hb inst).
 Proof.
   intros H. unfold pm_restart. destruct (do_live inst ev_sgn_restart (RDefault now)); cbn; auto.
-  split; [apply l_save_fsm; exact H|reflexivity].
 Qed.
 
 Lemma l_pm_prop m req ha hb i4 op :
@@ -198,7 +197,7 @@ Lemma k_put_operation st start h o : gkeep st (h_st h) start -> res_keep st star
 Proof. intros H. unfold put_operation. destruct (existsb _ _); [exact H|]. cbn [res_keep]. apply k_emit; [exact I|exact H]. Qed.
 
 Lemma k_pm_restart st start now m h inst : gkeep st (h_st h) start -> res_keep st start (pm_restart now m h inst).
-Proof. intros H. unfold pm_restart. destruct (do_live _ _ _); cbn [res_keep]; auto; try (apply k_save_fsm; exact H). Qed.
+Proof. intros H. unfold pm_restart. destruct (do_live _ _ _); cbn [res_keep]; auto. Qed.
 
 Lemma k_pm_prop st m req h i4 op :
   gkeep st (h_st h) (String.eqb (m_event m) ev_sgn_start) ->
